@@ -269,3 +269,16 @@ def gen(rng, nrng, tier):
         if not cplx and order <= 12:
             a, e = _lp().rc2poly(k, r0)
             yield ("lsf", {"lsf": np.asarray(_lp().poly2lsf(np.asarray(a))), "k": k, "r0": r0})
+    # parameter sets with reflection coefficients that are exactly zero (last, first, interior, several): the polynomial then has
+    # exactly-zero coefficients, which are coefficients like any other
+    for i in range(12 if tier == "quick" else 120):
+        order = 2 + i % 6
+        k = gen_k(nrng, order, False)
+        k[np.abs(k) < 1e-9] = 0.25
+        for pos in [[order - 1], [0], [order // 2], [order - 1, order - 2]][i % 4]:
+            k[pos] = 0.0
+        p = {"k": k, "r0": 1.0 + (i % 3)}
+        yield ("laws", p)
+        yield (kinds[i % len(kinds)], p)
+        a, e = _lp().rc2poly(k, p["r0"])
+        yield ("lsf", {"lsf": np.asarray(_lp().poly2lsf(np.asarray(a))), "k": k, "r0": p["r0"]})
